@@ -60,9 +60,9 @@ def build_case(data: bytes, st: Dict[str, Any], pc: int = CODE) -> Tuple[Dict[st
     return regs, mem, st["fill"]
 
 
-def rs_req(regs, mem, fill, steps=1, trace=False):
+def rs_req(regs, mem, fill, steps=1, trace=False, ignore_power=False):
     return {"cmd": "exec", "regs": regs, "mem": [[a, v] for a, v in mem.items()], "fill": fill, "steps": steps,
-            "trace": trace}
+            "trace": trace, "ignore_power": ignore_power}
 
 
 def compare(py: Dict[str, Any], rs: Dict[str, Any]) -> List[Tuple[str, str]]:
@@ -209,6 +209,7 @@ PROGRAM_PALETTE_HEX = [
     "b004", "b024", "b034", "98001 0".replace(" ", ""), "f010 0020".replace(" ", ""), "e81004",
     "cb1020", "c01020", "c31020", "d4 10 20".replace(" ", ""), "dc10563402", "fc10", "ec10", "4402", "4424",
     "ed24", "fd24", "dd", "1200", "1800", "1a00", "32c81020", "25c81020", "3080 10".replace(" ", ""),
+    "de", "df", "32ccf8ff", "32ccfe00",      # HALT, OFF (also executed while already in that state), MV (USR),FF, MV (SSR),00
 ]
 
 
@@ -289,13 +290,13 @@ def _shard_programs(args):
         for seq in part:
             code = _prog_bytes(seq) + bytes([0x00] * 4)
             regs, mem, fill = build_case(code, st, CODE)
-            reqs.append(rs_req(regs, mem, fill, steps=len(seq) if steps is None else steps, trace=True))
+            reqs.append(rs_req(regs, mem, fill, steps=len(seq) if steps is None else steps, trace=True, ignore_power=steps is None))
         outs = h.batch(reqs)
         for seq, o in zip(part, outs):
             code = _prog_bytes(seq) + bytes([0x00] * 4)
             regs, mem, fill = build_case(code, st, CODE)
             nsteps = len(seq) if steps is None else steps
-            py = pycpu.run(regs, mem, fill, steps=nsteps, trace=True)
+            py = pycpu.run(regs, mem, fill, steps=nsteps, trace=True, ignore_power=steps is None)
             n += 1
             if o.get("panic") or bool(py.get("err")) != bool(o.get("err")):
                 vb.add("C06/program/error-one-side/" + "+".join(_mnemonic(x) for x in seq), f"program {[s.hex() for s in seq]}: python err={py.get('err')} rust={o.get('err') or o.get('panic')}",
@@ -347,6 +348,11 @@ def run(ctx) -> None:
     pcs_cf = [] if not ctx.thorough else [0x1FFFD, 0xFFFF0]
     pairs = [(p, op) for p in drv.PRE_CHOICES for op in range(256) if not (p is None and op in drv.PRE_BYTES)]
     res = pmap(_shard_shapes, [(s, tails, states, pcs_cf) for s in chunks(pairs, nproc() * 4)])
+    if not ctx.thorough:
+        # quick tier: only the control-flow opcodes at the end of a 64 KiB page (the instruction straddles or touches the boundary)
+        cf_ops = [0x02, 0x03, 0x04, 0x05, 0x06, 0x07, 0x10, 0x11, 0x12, 0x13, 0x14, 0x15, 0x16, 0x17, 0x18, 0x19, 0x1A, 0x1B, 0x1C, 0x1D, 0x1E, 0x1F, 0xFE, 0x01]
+        res += pmap(_shard_shapes, [([(p, op) for op in c], tails[:1], states[:1], [0x1FFFD, 0x1FFFE, 0xFFFF0]) for p in (None, 0x32)
+                                    for c in chunks(cf_ops, 4)])
     # register-only instructions at the boundary values of every register width (no memory operand, so no wrap questions)
     bnd = [{"bpx": BPX[0], "bg": bg, "F": f, "fill": 0x10B} for f, bg in
            ((0, {"BA": 0xFFFF, "I": 0xFFFF, "X": 0xFFFFF, "Y": 0xFFFFF, "U": 0xFFFFF, "S": 0xFFFFF}),
